@@ -31,7 +31,8 @@ def run_check(prop, tier, seed, prop_modules, parts, rule, assumptions, trusted_
         driver.close()
     if not gate["ok"]:
         # a proof obligation no longer checks: a concrete failing input may already have been found by a part
-        found = any(v[3] for v in verdict.violations)
+        # (a failing input that is a KNOWN finding does not explain a broken proof)
+        found = any(v[3] and not verdict.is_known(v[0]) for v in verdict.violations)
         if not found:
             verdict.add("proof-gate", "; ".join(gate["failures"])[:1500], dict(broken_theorems=gate["failures"], checker_cmd=gate["cmd"]), found_input=False)
         else:
